@@ -53,8 +53,9 @@ SecS     == <<83>>                                        \* "S"
 \*   h group-less keys followed by a header-only section: the line `[S]` with no key below it (a vendor
 \*     file whose section holds only commented-out defaults).  It contributes no entry: keys that other
 \*     files define in S must arrive all the same.
-MShape(s) == CASE s \in {"bb", "bn", "bs", "bh"} -> "both" [] s \in {"nb", "nn", "ns", "nh"} -> "nogroup"
-               [] s \in {"hb", "hn", "hs", "hh"} -> "header" [] OTHER -> "section"
+MShape(s) == CASE s \in {"bb", "bn", "bs", "bh", "bc"} -> "both" [] s \in {"nb", "nn", "ns", "nh", "nc"} -> "nogroup"
+               [] s \in {"hb", "hn", "hs", "hh", "hc"} -> "header" [] OTHER -> "section"
+ASSUME \A s \in {"bc", "nc", "sc", "hc", "bh", "hs"} : MShape(s) \in {"both", "nogroup", "section", "header"}
 \*   c (drop-ins only) comment lines only: the file is consulted, merged and listed in the history, but sets nothing
 DShape(s) == CASE s \in {"bb", "nb", "sb", "hb"} -> "both" [] s \in {"bn", "nn", "sn", "hn"} -> "nogroup"
                [] s \in {"bh", "nh", "sh", "hh"} -> "header" [] s \in {"bc", "nc", "sc", "hc"} -> "comment" [] OTHER -> "section"
